@@ -34,6 +34,7 @@ var accelShapes = []string{
 	`\w*@x`, `[^,]*,`, `a*b`, `\s*=`, `[ab]*c+d`, `a*?b`, `\w+:`, `(?>a*)b`,
 	`\w+@\w+\.com`, `[\w-]+\s*=\s*\d+`, `[a-z]+ = [0-9]+;`,
 	`[abc]\d`, `\d+x`, `[a-c]+`, `a|b|c`, `ab|.c`, `a|.`, `(?:a|b)c|d`, `a?b`, `(a)?b`, `(?=ab)a.`, `(?=a)\w+`, `(?!b)\w`, `(?<=a)b`,
+	`[ac]*[ab]{1,2}a`, `a*[ab]{1,2}[a-]`, `[ac]+[ab]{1,3}b[ab]{1,2}a`, `\w*[ab]{2,3}b`, `(?>a+)?ab`, `(?>a*)?aab`, `(?>a{1,2}){2}`, `(?<=(?:a*ba){2})`, `(?<=(?:a*$){2})`,
 	`(a*c?)b\1`, `(\w+,)\1`, `(a+b?)\1c`, `(?<w>\w+ )\k<w>`, `([ab]+c?)d\1`,
 	`abab`, `abca\d`, `abab\w`, `aba`, `abcab`, `(?i)abab`,
 	`[ab]{25}c`, `[ab]{21}cd`, `\w{22}x`, `[a-c]{30}`, `a{25}b`, `[a-z]+(?:@|\d+)[a-z]+(?:\.|,)[a-z]+`, `\w+(?:-|\s+)\w+(?:=|\d)\w+`, `[a-z]+(?:x|[0-9]{2})[a-z]+(?:;|y+)z`,
